@@ -24,3 +24,9 @@ func VerifDrainPqsRequests() int {
 	processBackFillAndEmptyPQSRequests(reqs)
 	return len(reqs)
 }
+
+// VerifRemoveSegmetas calls the real removeSegmetas (reached in production through RemoveSegMetas with a
+// non-nil map and no index name, and through DeleteSegmentsForIndex with a nil map and an index name).
+func VerifRemoveSegmetas(segkeysToRemove map[string]struct{}, indexName string) map[string]struct{} {
+	return removeSegmetas(segkeysToRemove, indexName)
+}
